@@ -293,6 +293,13 @@ class OutputPort(Port):
     pass
 
 
+def _copy_mappings(value: Any) -> Any:
+    """Recursively copy nested mappings into new dictionaries, leaving the values they hold untouched."""
+    if isinstance(value, collections.abc.Mapping):
+        return {key: _copy_mappings(subvalue) for key, subvalue in value.items()}
+    return value
+
+
 class PortNamespace(collections.abc.MutableMapping, Port):
     """
     A container for Ports. Effectively it maintains a dictionary whose members are
@@ -692,6 +699,11 @@ class PortNamespace(collections.abc.MutableMapping, Port):
                         port_value = default()
                     else:
                         port_value = default
+
+                    if isinstance(port, PortNamespace):
+                        # The recursive call modifies its argument in place: hand it a copy (of the mappings, not of the
+                        # values) so that the default of the namespace stays as declared for the next process
+                        port_value = _copy_mappings(port_value)
 
                 # If a namespace containing ports, create an empty dictionary so its ports can be considered recursively
                 elif isinstance(port, PortNamespace) and port.ports:
